@@ -173,7 +173,7 @@ package postgres
 //@ ensures err != nil ==> result == nil
 
 //@ func (*PostgresStoreWorker).createTask
-//@ props C17 C08 C02 C20
+//@ props C17 C08 C02 C20 C07
 //@ nopanic C13
 //@ ghostdb store
 //@ stmt stmt TASK_INSERT_STATEMENT
@@ -186,7 +186,7 @@ package postgres
 //@ ensures err != nil ==> result == nil
 
 //@ func (*PostgresStoreWorker).createTasks
-//@ props C17 C05 C08 C02 C20
+//@ props C17 C05 C08 C02 C20 C07
 //@ nopanic C13
 //@ ghostdb store
 //@ stmt stmt TASK_INSERT_ALL_STATEMENT
@@ -228,7 +228,7 @@ package postgres
 //@ ensures err != nil ==> result == nil
 
 //@ func (*PostgresStoreWorker).performCommands
-//@ props C06 C17 C02
+//@ props C06 C17 C02 C01 C03 C04 C05 C07 C08 C09 C10
 //@ nopanic C13
 //@ ghostdb store
 //@ opaque
@@ -250,7 +250,7 @@ package postgres
 //@ ensures err == nil ==> len(result0) == len(transactions)
 
 //@ func (*PostgresStoreWorker).Execute
-//@ props C06 C17 C02 C05 C01
+//@ props C06 C17 C02 C05 C01 C03 C04 C07 C08 C09 C10
 //@ nopanic C13
 //@ ghostdb store
 //@ requires w.config != nil && w.db != nil
